@@ -10,6 +10,7 @@
  * claim relates two different bytes of the same large copied range.
  */
 #include <stddef.h>
+#include "zstd_verif_hooks.h"
 unsigned char nondet_mem_byte(void);
 size_t nondet_mem_index(void);
 
@@ -42,6 +43,7 @@ void* memmove(void* d, const void* s, size_t n)
 {
     unsigned char* dd = (unsigned char*)d;
     const unsigned char* ss = (const unsigned char*)s;
+    zstd_verif_ghost.memmove_last_dst = d; zstd_verif_ghost.memmove_last_len = n; zstd_verif_ghost.memmove_calls++;
     if (n == 0) return d;
     if (n <= PRECISE_MAX) {
         unsigned char tmp[PRECISE_MAX];
